@@ -297,7 +297,8 @@ abbrev recvNotOutput : Prop := ∀ rc ∈ allRecvs (P.parts r), rc.name ∉ allO
 abbrev recvNotUser : Prop := ∀ rc ∈ allRecvs (P.parts r), rc.name ∉ P.user r
 abbrev recvNamesNodup : Prop := ((allRecvs (P.parts r)).map (·.name)).Nodup
 abbrev outputNotUser : Prop := ∀ n ∈ allOutputs (P.parts r), n ∉ P.user r
-/-- overall outputs are never released: no part reads them -/
+/-- overall outputs are never released: no part reads them (needed by the executor, C08; not
+    one of C09's clauses) -/
 abbrev overallNotRead : Prop := ∀ n ∈ P.overall r, ∀ p ∈ P.parts r, n ∉ p.inputs
 /-- clause 5: no communication nodes inside parts -/
 abbrev partsPure : Prop := ∀ p ∈ P.parts r, p.pure = true
@@ -327,8 +328,8 @@ end Cl
 def WFRank (P : Partition) (lvl : Nat → Nat → Nat) (round : Nat → Nat → Nat → Nat) (r : Nat) : Prop :=
   Cl.pidsNodup P r ∧ Cl.needsOk P lvl r ∧ Cl.recvOk P lvl r ∧ Cl.outputsNodup P r
   ∧ Cl.overallProduced P r ∧ Cl.sentAreOutputs P r ∧ Cl.readsOk P r ∧ Cl.inputsNodup P r
-  ∧ Cl.recvNotOutput P r ∧ Cl.recvNotUser P r ∧ Cl.recvNamesNodup P r ∧ Cl.outputNotUser P r
-  ∧ Cl.overallNotRead P r ∧ Cl.partsPure P r ∧ Cl.sendIdsNodup P r ∧ Cl.recvIdsNodup P r
+  ∧ Cl.recvNotOutput P r ∧ Cl.recvNotUser P r ∧ Cl.recvNamesNodup P r
+  ∧ Cl.partsPure P r ∧ Cl.sendIdsNodup P r ∧ Cl.recvIdsNodup P r
   ∧ Cl.sendHasRecv P r ∧ Cl.roundsPart P round r ∧ Cl.roundsRecvSame P round r
   ∧ Cl.roundsSendSame P round r ∧ Cl.roundsOrder P round r
 
@@ -428,6 +429,9 @@ def computeRound (P : Partition) : Nat → Nat → Nat → Nat :=
 def checkWF (P : Partition) : Bool := decide (WFwith P (computeLvl P) (computeRound P))
 
 def checkWFexec (P : Partition) : Bool := decide (WFexecWith P (computeLvl P))
+
+/-- the clauses that are not part of `WFRank` -/
+def nonWFClauses : List String := ["output-not-user", "overall-not-read"]
 
 def execClauses : List String :=
   ["pids-nodup", "needs-ok", "recv-ok", "overall-produced", "sent-are-outputs", "reads-ok",
